@@ -24,6 +24,12 @@ def plans(tier):
              depth=2),
         dict(fmt="tfrec", eps=2, letters=A(("root", "x", "multi"), ("mix",)),
              depth=2),
+        # rejected writes caught by the caller
+        dict(fmt="fb", eps=2, letters=A(("root", "x", "rej"),
+                                        ("train", "holdout", "mix")),
+             depth=2),
+        dict(fmt="npz", eps=1, letters=A(("rej", "multi"),
+                                         ("train", "mix")), depth=2),
     ]
 
 
